@@ -8,7 +8,22 @@ from harness.interp_gen import Gen
 PROP = 'C03'
 LEAN_MODULES = ['Glom.Props.C03']
 FACT_FILES = ['ExcFacts']
-READY = False
+READY = True
+MANIFEST = dict(
+    text=("Lean 4 theorems over the code-shaped loops of the interpreter model (_handle_dict, _handle_list, _handle_tuple, "
+          "Coalesce.glomit with accumulators and early exits as in the Python), for every evaluator of the sub-specs, every "
+          "scope representation, every target and length: a list spec is map/filter-SKIP/stop-at-STOP of the sub-spec, a dict "
+          "spec yields the same keys in order holding the sub-results, a tuple feeds each result to the next step "
+          "(glom(t,(a,b)) = glom(glom(t,a),b) for non-sentinel results), Pipe = tuple, Coalesce first non-skipped success wins "
+          "and later alternatives never run, containers are determined by the evaluator at their own scope only. The model is "
+          "tied to /repo by differential execution (result + ordered call log) through the compiled Lean driver, and the "
+          "composition law itself is re-evaluated on the real glom (top-level tuple/dict/list specs recomputed from separate "
+          "glom calls on their sub-specs)."),
+    note=("trusted: Lean kernel + {propext, Classical.choice, Quot.sound}; harness/driver; Python primitives as Prims parameters; "
+          "hand-written interpreter model validated by the correspondence on every run. The loop laws are stated relative to a "
+          "pure evaluator of the sub-specs (hypothesis PureOn), which catalogue callables and paths satisfy."),
+    technique='Lean 4 loop-refinement lemmas (accumulator loops = map/filter/fold reference) + differential correspondence + metamorphic composition check',
+    ref='DESIGN.md §3 C03')
 RULE = ('type-directed: a random JSON-like target; a spec tree of depth <= 3 (quick) / 4 (thorough), width <= 4, over '
         '{str path, T, dict (literal and computed keys, dict/OrderedDict), list, tuple, Pipe, callable, type, Val, Spec, '
         'Coalesce(+default/default_factory/skip/skip_exc), Call, Invoke (constants/specs/star), Ref}; chain steps are '
@@ -43,8 +58,81 @@ def corpus():
     return out
 
 
+def has_kind(j, kinds):
+    if isinstance(j, dict):
+        if j.get('k') in kinds:
+            return True
+        return any(has_kind(v, kinds) for v in j.values())
+    if isinstance(j, list):
+        return any(has_kind(v, kinds) for v in j)
+    return False
+
+
+def compose(case):
+    """recompute a top-level tuple / Pipe / dict / list spec from separate glom calls on its sub-specs"""
+    import glom
+    from collections import OrderedDict
+    spec = case['spec']
+    k = spec['k']
+    if k not in ('tuple', 'pipe', 'dict', 'odict', 'list') or has_kind(spec, ('ref', 'sRead', 'sGlobRead', 'sVarRead')):
+        return None
+    fns = {}
+    target = ic.dec(case['target'], fns)
+    del ic.LOG[:]
+    try:
+        if k in ('tuple', 'pipe'):
+            res = target
+            for st in spec['xs']:
+                nxt = glom.glom(res, ic.build(st, fns))
+                if nxt is glom.SKIP:
+                    continue
+                if nxt is glom.STOP:
+                    break
+                res = nxt
+        elif k == 'list':
+            if not spec['xs']:
+                return None
+            sub = ic.build(spec['xs'][0], fns)
+            res = []
+            for item in glom.glom(target, glom.Iter().all()) if not isinstance(target, (list, tuple)) else target:
+                v = glom.glom(item, sub)
+                if v is glom.SKIP:
+                    continue
+                if v is glom.STOP:
+                    break
+                res.append(v)
+        else:
+            res = OrderedDict() if k == 'odict' else {}
+            for kj, vj in spec['es']:
+                v = glom.glom(target, ic.build(vj, fns))
+                if v is glom.SKIP:
+                    continue
+                key_ = ic.build(kj, fns)
+                if kj['k'] in ('t', 'specW'):
+                    key_ = glom.glom(target, key_)
+                res[key_] = v
+        out = {'ok': ic.enc(res)}
+    except Exception as e:
+        out = {'err': ic.exc_name(e)}
+    log = list(ic.LOG)
+    del ic.LOG[:]
+    return out, log
+
+
 def run_impl(case):
-    return ic.run_glom({k: v for k, v in case.items() if not k.startswith('impl')})
+    base = {k: v for k, v in case.items() if not k.startswith('impl')}
+    out = ic.run_glom(base)
+    try:
+        comp = compose(base)
+    except Exception:
+        comp = None
+    if comp is None:
+        out['impl_compose_ok'] = True
+    else:
+        out['impl_compose_ok'] = (comp[0] == out['impl'] and comp[1] == out['impl_log'])
+        if not out['impl_compose_ok']:
+            out['impl_compose'] = {'res': comp[0], 'log': comp[1]}
+    return out
 
 
 def key(case):
